@@ -316,7 +316,7 @@ class Exec(Engine):
 
     def st_If(self, s, fr):
         st = fr.st
-        c = z3.simplify(self.truth(self.ev(s.test, fr), fr))
+        c = z3.simplify(self.cond(s.test, fr))
         if z3.is_true(c):
             return self.exec_block(s.body, fr)
         if z3.is_false(c):
@@ -343,6 +343,9 @@ class Exec(Engine):
         for h in st.pc:
             if not z3.is_quantifier(h):
                 s.add(h)
+        for _, ax in self.axioms:
+            if not z3.is_quantifier(ax):
+                s.add(ax)
         return s.check() != z3.unsat
 
     def try_merge(self, c, o1, o2, fr):
@@ -644,6 +647,12 @@ class Exec(Engine):
                         if isinstance(f, ast.Name) and f.id in fr.st.env and fr.contract is not None and f.id in fr.contract.fn_params:
                             ghost.add("calls")
                             continue
+                        if isinstance(f, ast.Attribute) and ("." + f.attr) in self.reg.externals and isinstance(f.value, ast.Name) \
+                                and (f.value.id not in fr.st.env or fr.st.env[f.value.id].k != "obj"):
+                            # a modelled method of an external object (executor.submit, future.result): touches no
+                            # repository object; may extend the ghost call log
+                            ghost.add("calls")
+                            continue
                         heap_all = True
                         ghost.add("*")
         return names, heap_all, attr_targets, ghost
@@ -669,9 +678,9 @@ class Exec(Engine):
             return False
         return d in self.reg.inert or d.split(".")[-1] in self.reg.inert_methods
 
-    def havoc_loop(self, s, fr, spec):
+    def havoc_loop(self, s, fr, spec, extra_body=()):
         st = fr.st
-        names, heap_all, attr_targets, ghost = self.loop_modifies(s.body, fr, spec)
+        names, heap_all, attr_targets, ghost = self.loop_modifies(list(s.body) + list(extra_body), fr, spec)
         extra = (spec or {}).get("modifies")
         for nm in names:
             if nm in st.env:
@@ -791,8 +800,13 @@ class Exec(Engine):
         sf.loop_vars = {"entry": loop_entry}
         for name, f in self.eval_clauses(inv, sf):
             self.emit(sf, f"{lid}.inv.{name}.entry", f, kind="inv", line=s.lineno)
-        # 2. arbitrary iteration
-        self.havoc_loop(s, fr, spec)
+        # 2. arbitrary iteration (a lazy generator consumed by the loop runs its element expression inside the loop)
+        extra = []
+        if isp.lazy is not None:
+            lz = ast.Expr(value=isp.lazy[2].elt)
+            ast.copy_location(lz, s)
+            extra = [lz]
+        self.havoc_loop(s, fr, spec, extra)
         for g in spec.get("ghost_vars", []):
             self.havoc_target(g, fr)
         i = z3.Int(fresh_name(idx))
@@ -816,6 +830,8 @@ class Exec(Engine):
                 res.append(o0)
                 continue
             bf = fr.sub(st=o0.st)
+            if isp.desc == "enumerate-lazy":
+                o0.val = mk_tuple([mk_int(getattr(isp, "start", z3.IntVal(0)) + i), o0.val])
             self.bind_target(s.target, o0.val, bf)
             self.run_ghost(spec.get("ghost_pre"), bf)
             for bo in self.exec_block(s.body, bf):
